@@ -206,6 +206,8 @@ type authObs struct {
 	Name    string `json:"name,omitempty"`
 	Allowed string `json:"allowed,omitempty"`
 	Rest    string `json:"rest,omitempty"` // canonical text of the remaining fields
+	vars    int
+	redir   bool
 }
 
 type upathObs struct {
@@ -216,15 +218,35 @@ type upathObs struct {
 	Fe   *authObs `json:"frontend,omitempty"`
 }
 
+// corsObs: hatypes.Cors of a path as far as the request rules go
+type corsObs struct {
+	ID   string
+	On   bool
+	Dyn  bool
+	Text string // the whole struct, for DeepEqual
+}
+
+// probeObs: one request run through the rendered rules by the Go evaluator
+type probeObs struct {
+	Key, ID, Path string
+	Exact         bool
+	Method        string
+	OK            bool // every authentication service answers ok / none does
+	Verdict       string
+}
+
 type ubackObs struct {
-	Name  string     `json:"name"`
-	ID    string     `json:"id"`
-	Paths []upathObs `json:"paths"`
-	Rules []ruleObs  `json:"rules"`
-	raw   []c1819.AuthRule
-	be    *hatypes.Backend
-	call  int
-	shift int
+	cors   []corsObs
+	xrules []c1819.AuthRule
+	probes []probeObs
+	Name   string     `json:"name"`
+	ID     string     `json:"id"`
+	Paths  []upathObs `json:"paths"`
+	Rules  []ruleObs  `json:"rules"`
+	raw    []c1819.AuthRule
+	be     *hatypes.Backend
+	call   int
+	shift  int
 }
 
 type ruleObs struct {
@@ -255,6 +277,8 @@ type updObs struct {
 	Front    []ruleObs  `json:"frontend_rules"`
 	Warn     []string   `json:"warnings,omitempty"`
 	frontRaw map[string][]c1819.AuthRule
+	xfront   []c1819.AuthRule
+	fprobes  []probeObs
 	released int
 	targets  map[string]int // target key -> id
 	urls     map[string]urlInfo
@@ -277,7 +301,8 @@ func projAuth(a *hatypes.AuthExternal) authObs {
 		sort.Strings(vars)
 		rest = fmt.Sprintf("%q %q %q %q %q %q %q", a.AuthPath, a.Method, a.RedirectOnFail, a.HeadersFail, a.HeadersRequest, a.HeadersSucceed, vars)
 	}
-	return authObs{Deny: a.AlwaysDeny, Name: a.AuthBackendName, Allowed: a.AllowedPath, Rest: rest}
+	return authObs{Deny: a.AlwaysDeny, Name: a.AuthBackendName, Allowed: a.AllowedPath, Rest: rest,
+		vars: len(a.HeadersVars), redir: a.RedirectOnFail != ""}
 }
 
 var duoKeys = []string{kPlace, "auth-headers-fail", "auth-headers-request", "auth-headers-succeed", "auth-method", kSignin, kURL}
@@ -290,8 +315,8 @@ var updDefaults = map[string]string{
 func projRules(rs []c1819.AuthRule) []ruleObs {
 	var out []ruleObs
 	for _, r := range rs {
-		if r.Act == "service" {
-			continue // not an authentication rule
+		if r.Act == "service" || r.Act == "setvar" || r.Act == "setheader" {
+			continue // not a rule of the decision model (see xrules)
 		}
 		o := ruleObs{Name: r.Name}
 		switch r.Act {
@@ -507,12 +532,102 @@ func runUpdater(in input, scratch string) *updObs {
 		obs.Binds = append(obs.Binds, bindObs{Port: b.LocalPort, Target: targetKeyOfBackend(hc, b.Backend.String())})
 	}
 	for i := range obs.Backs {
-		if s := secs["backend "+obs.Backs[i].ID]; s != nil {
-			obs.Backs[i].raw = c1819.ParseAuthRules(s.Lines)
-			obs.Backs[i].Rules = projRules(obs.Backs[i].raw)
+		bo := &obs.Backs[i]
+		if s := secs["backend "+bo.ID]; s != nil {
+			bo.raw = c1819.ParseAuthRules(s.Lines)
+			bo.Rules = projRules(bo.raw)
+		}
+		bo.xrules = xfilter(bo.raw)
+		for _, bp := range bo.be.Paths {
+			c := bp.Cors
+			bo.cors = append(bo.cors, corsObs{ID: bp.ID, On: c.Enabled && len(c.AllowOrigin) > 0,
+				Dyn: len(c.AllowOriginRegex) > 0 || len(c.AllowOrigin) > 1, Text: fmt.Sprintf("%+v", c)})
+		}
+		for i, po := range bo.Paths {
+			if i < 5 || i == len(bo.Paths)-1 { // the big backends would only repeat themselves
+				bo.probes = append(bo.probes, probesFor(bo.xrules, po.Path, po.ID, po.Back.Allowed, true)...)
+			}
+		}
+	}
+	obs.xfront = xfilter(obs.frontRaw["frontend _front_http"])
+	for _, ho := range obs.Hosts {
+		for i, po := range ho.Paths {
+			if i >= 4 {
+				break
+			}
+			allowed := ""
+			if po.Fe != nil {
+				allowed = po.Fe.Allowed
+			}
+			obs.fprobes = append(obs.fprobes, probesFor(obs.xfront, po.Path, "path01", allowed, true)...)
+			obs.fprobes = append(obs.fprobes, probesFor(obs.xfront, po.Path, "path01", allowed, false)...)
 		}
 	}
 	return obs
+}
+
+// xfilter keeps the rules the Cors and AuthExternal blocks emit (Model/AuthRules.v)
+func xfilter(rs []c1819.AuthRule) []c1819.AuthRule {
+	var out []c1819.AuthRule
+	for _, r := range rs {
+		switch r.Act {
+		case "setvar":
+			if !strings.HasPrefix(r.Args[0], "set-var(txn.cors_max_age)") && !strings.HasPrefix(r.Args[0], "set-var(txn.hdr_origin") {
+				continue
+			}
+		case "setheader":
+			found := false
+			for _, c := range r.Conds {
+				if c.Kind == "varfound" {
+					found = true
+				}
+			}
+			if !found {
+				continue
+			}
+		case "service":
+			if len(r.Args) == 0 || r.Args[0] != "lua.send-cors-preflight" {
+				continue
+			}
+		}
+		out = append(out, r)
+	}
+	return out
+}
+
+// probesFor runs requests of one path through rules with the Go evaluator: the path itself
+// and a URL under its allowed prefix, four methods, services all ok / all failing
+func probesFor(rules []c1819.AuthRule, key, id, allowed string, exact bool) []probeObs {
+	var out []probeObs
+	i := strings.Index(key, "#")
+	if i < 0 {
+		return nil
+	}
+	host, path := key[:i], key[i+1:]
+	urls := []string{path}
+	if allowed != "" {
+		urls = append(urls, allowed+"zz9")
+	}
+	for _, u := range urls {
+		base := host + "#" + u
+		if !exact {
+			base += "zz9"
+		}
+		for _, m := range []string{"GET", "OPTIONS", "POST"} {
+			for _, ok := range []bool{false, true} {
+				ok := ok
+				v := c1819.RunAuth(rules, c1819.Request{Base: base, Path: u, PathID: id, Method: m}, func(string) bool { return ok })
+				verdict := "Denied"
+				if v.Served {
+					verdict = "Served"
+				} else if v.Proxy {
+					verdict = "AnsweredByProxy"
+				}
+				out = append(out, probeObs{Key: key, ID: id, Path: u, Exact: exact && u == path, Method: m, OK: ok, Verdict: verdict})
+			}
+		}
+	}
+	return out
 }
 
 // target key of an auth backend created by AcquireAuthBackend, or the id of a service backend
@@ -752,6 +867,8 @@ type coqCtx struct {
 	tags    map[string]int // rest text -> tag
 	prefix  map[string]int // AllowedPath -> id
 	backIdx map[string]int // backend id string -> index
+	extras  map[int]string // tag -> extra
+	ctags   map[string]int // Cors struct text -> tag
 	hostIdx map[string]int
 }
 
@@ -800,7 +917,93 @@ func (c *coqCtx) auth(a authObs) string {
 	if a.Allowed != "" {
 		al = "(Some " + hx.N(c.pfx(a.Allowed)) + ")"
 	}
+	if t := c.tag(a.Rest); t != 0 {
+		c.extras[t] = fmt.Sprintf("{| e_vars := %s; e_redirect := %s |}", hx.Nat(a.vars), hx.Bool(a.redir))
+	}
 	return fmt.Sprintf("{| a_deny := %s; a_name := %s; a_allowed := %s; a_tag := %s |}", hx.Bool(a.Deny), c.name(a.Name), al, hx.N(c.tag(a.Rest)))
+}
+
+var methCoq = map[string]string{"GET": "MGet", "HEAD": "MHead", "POST": "MPost", "PUT": "MPut", "DELETE": "MDelete", "OPTIONS": "MOptions"}
+
+func methOf(m string) string {
+	if v, ok := methCoq[m]; ok {
+		return v
+	}
+	return "MOther"
+}
+
+// xrule prints a parsed rule in the language of Model/AuthRules.v, terms in rendered order
+func (c *coqCtx) xrule(r c1819.AuthRule) string {
+	act := "XDeny"
+	switch r.Act {
+	case "guard-redirect":
+		act = "XRedirect"
+	case "service":
+		act = "XUseService"
+	case "setvar":
+		act = "XSetVar"
+	case "setheader":
+		act = "XSetHeader"
+	case "intercept":
+		n := c.name(r.Name)
+		act = "(XIntercept " + strings.TrimSuffix(strings.TrimPrefix(n, "(Some "), ")") + ")"
+		if n == "None" {
+			act = "(XIntercept (NBack 999998%N))"
+		}
+	}
+	var terms []string
+	for _, cd := range r.Conds {
+		switch {
+		case cd.Kind == "authok" && cd.Neg:
+			terms = append(terms, "TAuthFailed")
+		case cd.Kind == "pathid" && !cd.Neg && cd.Method == "str" && !cd.ICase:
+			var ids []string
+			for _, id := range cd.Pats {
+				ids = append(ids, hx.N(pathNum(id)))
+			}
+			terms = append(terms, "TIds "+hx.List(ids))
+		case cd.Kind == "base" && !cd.Neg && cd.Method == "str" && !cd.ICase && len(cd.Pats) == 2:
+			terms = append(terms, "TKey "+hx.N(c.key(cd.Pats[1])))
+		case cd.Kind == "pathbeg" && cd.Neg && len(cd.Pats) == 1:
+			terms = append(terms, "TNotUnder "+hx.N(c.pfx(cd.Pats[0])))
+		case cd.Kind == "meth" && !cd.ICase:
+			var ms []string
+			for _, m := range cd.Pats {
+				ms = append(ms, methOf(m))
+			}
+			terms = append(terms, "TMeth "+hx.Bool(cd.Neg)+" "+hx.List(ms))
+		case cd.Kind == "varfound" && !cd.Neg:
+			terms = append(terms, "TVarFound")
+		default:
+			terms = append(terms, "TIds [999999%N]") // a condition the model does not know
+		}
+	}
+	return fmt.Sprintf("{| x_act := %s; x_if := %s |}", act, hx.List(terms))
+}
+
+func (c *coqCtx) xrules(rs []c1819.AuthRule) string {
+	var out []string
+	for _, r := range rs {
+		out = append(out, c.xrule(r))
+	}
+	return hx.List(out)
+}
+
+func (c *coqCtx) probe(b int, p probeObs) string {
+	var under []int
+	for pfx, id := range c.prefix {
+		if strings.HasPrefix(p.Path, pfx) {
+			under = append(under, id)
+		}
+	}
+	sort.Ints(under)
+	var us []string
+	for _, u := range under {
+		us = append(us, hx.N(u))
+	}
+	q := fmt.Sprintf("{| xq := {| q_path := %s; q_id := %s; q_exact := %s; q_under := %s |}; xmeth := %s; xfound := false |}",
+		hx.N(c.key(p.Key)), hx.N(pathNum(p.ID)), hx.Bool(p.Exact), hx.List(us), methOf(p.Method))
+	return hx.Tuple(hx.N(b), q, hx.Bool(p.OK), p.Verdict)
 }
 
 func pathNum(id string) int {
@@ -861,7 +1064,8 @@ func placeCoq(d decl, has bool) string {
 }
 
 func coqCase(id int, in input, uo *updObs) string {
-	c := &coqCtx{in: in, uo: uo, keys: map[string]int{}, tags: map[string]int{}, prefix: map[string]int{}, backIdx: map[string]int{}, hostIdx: map[string]int{}}
+	c := &coqCtx{in: in, uo: uo, keys: map[string]int{}, tags: map[string]int{}, prefix: map[string]int{}, backIdx: map[string]int{}, hostIdx: map[string]int{},
+		extras: map[int]string{}, ctags: map[string]int{}}
 	for i, ub := range in.UBackends {
 		c.backIdx["default_"+ub.Name+"_8080"] = i + 1
 	}
@@ -1064,9 +1268,39 @@ func coqCase(id int, in input, uo *updObs) string {
 	for i := range calls {
 		calls[i] = "(" + calls[i] + ")"
 	}
-	return fmt.Sprintf("{| uid := %s; ulua := %s; ustart := %s; uend := %s;\n   ucalls := %s;\n   uhosts := %s;\n   ubacks := %s;\n   ubinds := %s; uhorder := %s;\n   ufront := %s;\n   urules := %s |}",
+	// rendered rules in the language of Model/AuthRules.v, observed Cors, evaluator probes
+	var xbacks, probes, extras []string
+	for _, bo := range uo.Backs {
+		var crs []string
+		for _, co := range bo.cors {
+			if _, ok := c.ctags[co.Text]; !ok {
+				c.ctags[co.Text] = len(c.ctags) + 1
+			}
+			crs = append(crs, hx.Tuple(hx.N(pathNum(co.ID)), fmt.Sprintf("{| c_on := %s; c_dyn := %s; c_tag := %s |}", hx.Bool(co.On), hx.Bool(co.Dyn), hx.N(c.ctags[co.Text]))))
+		}
+		xbacks = append(xbacks, hx.Tuple(hx.N(c.backIdx[bo.ID]), hx.Tuple(hx.List(crs), c.xrules(bo.xrules))))
+	}
+	xfront := c.xrules(uo.xfront)
+	// the prefixes are all known now: the probes can say which ones their URL is under
+	for _, bo := range uo.Backs {
+		for _, p := range bo.probes {
+			probes = append(probes, c.probe(c.backIdx[bo.ID], p))
+		}
+	}
+	for _, p := range uo.fprobes {
+		probes = append(probes, c.probe(0, p))
+	}
+	var tags []int
+	for t := range c.extras {
+		tags = append(tags, t)
+	}
+	sort.Ints(tags)
+	for _, t := range tags {
+		extras = append(extras, hx.Tuple(hx.N(t), c.extras[t]))
+	}
+	return fmt.Sprintf("{| uid := %s; ulua := %s; ustart := %s; uend := %s;\n   ucalls := %s;\n   uhosts := %s;\n   ubacks := %s;\n   ubinds := %s; uhorder := %s;\n   ufront := %s;\n   urules := %s;\n   uextras := %s;\n   uxbacks := %s;\n   uxfront := %s;\n   uprobes := %s |}",
 		hx.N(id), hx.Bool(lua), hx.Z(int64(start)), hx.Z(int64(end)), hx.List(calls), hx.List(hostsObs), hx.List(backsObs),
-		hx.List(binds), hx.List(horder), hx.List(front), hx.List(rulesObs))
+		hx.List(binds), hx.List(horder), hx.List(front), hx.List(rulesObs), hx.List(extras), hx.List(xbacks), xfront, hx.List(probes))
 }
 
 var _ = json.Marshal
